@@ -10,6 +10,7 @@
 //	oversize after some valid frames, a header announcing more than the receive limit: a frame of limit+1 bytes sent in
 //	         full must not be delivered; a header announcing 64 MiB - 1 GiB (no body) must not make the node allocate it
 //
+//	backlog-stop  12-30 valid messages arrive and nobody reads them, then the message receiver is stopped: the stop must return
 //	concurrent-codec  4-8 goroutines encode and decode messages of all six types at the same time; every round trip must
 //	         give back the message that went in
 //	conn-pair two Conns over TCP, the sending one on a slow link (a pause after every socket write) with keepalive pings
@@ -258,7 +259,7 @@ var wirePlans = []string{"whole", "header-split", "two", "many", "mtu", "mtu"}
 func wireCase(i int, root *vh.Rng, pl *pool) *wireRes {
 	rng := root.Derive("wire", i)
 	res := &wireRes{Idx: i, Counts: map[string]int64{}}
-	res.Class = []string{"honest", "honest", "raw", "oversize", "conn-pair", "hostile-reader", "concurrent-codec", "ping-flood"}[i%8]
+	res.Class = []string{"honest", "backlog-stop", "raw", "oversize", "conn-pair", "hostile-reader", "concurrent-codec", "ping-flood"}[i%8]
 	p, err := newWirePair()
 	if err != nil {
 		res.Dropped = "cannot set up the loopback pair: " + err.Error()
@@ -392,6 +393,50 @@ func wireCase(i int, root *vh.Rng, pl *pool) *wireRes {
 			p.client.Close() // unblocks a writer the receiver no longer serves
 		}
 		<-done
+	case "backlog-stop":
+		// a peer that sends faster than anybody reads: 12-30 valid messages arrive and nobody takes them from the receiver
+		// (its queue holds 10), then the receiver is stopped: the stop must return - decided, when it has not returned
+		// after 20 s, by the goroutine dump (the receiver's processor parked in a channel send that nothing can release)
+		ctx, cancel := context.WithCancel(context.Background())
+		defer cancel()
+		types := map[protocol.MsgType]bool{protocol.MsgTypeRequestQualities: true, protocol.MsgTypeRequestProof: true, protocol.MsgTypeRequestSignature: true}
+		_, stop := fractal.NewMessageReceiver(ctx, p.conn, types)
+		n := rng.Range(12, 30)
+		var bodies [][]byte
+		for k := 0; k < n; k++ {
+			m, _ := genMessage(rng, pl, []int{1, 3, 5}[rng.Intn(3)], genOpts{nq: -1})
+			if enc, err := protocol.EncodeMessage(m); err == nil && len(enc) <= recvLimit {
+				bodies = append(bodies, enc)
+			}
+		}
+		fmt.Fprintf(&hash, "backlog-%d", len(bodies))
+		sent := make(chan struct{})
+		go func() { defer close(sent); sendFrames(bodies) }()
+		select {
+		case <-sent:
+		case <-time.After(3 * time.Second): // the peer's writes back up once the receiver stops draining: as intended
+		}
+		time.Sleep(time.Duration(rng.Range(50, 400)) * time.Millisecond)
+		res.add("receivers_stopped_with_a_backlog", 1)
+		res.Nontrivial = true
+		stopped := make(chan struct{})
+		go func() { stop(); close(stopped) }()
+		select {
+		case <-stopped:
+		case <-time.After(20 * time.Second):
+			dump := allGoroutines()
+			stuck := false
+			for _, blk := range strings.Split(dump, "\n\n") {
+				if strings.Contains(blk, "fractal.(*MessageReceiver).messageProcessor") && strings.Contains(strings.SplitN(blk, "\n", 2)[0], "[chan send") {
+					stuck = true
+				}
+			}
+			if stuck {
+				res.violate("receiver-stop-hangs-with-a-backlog", map[string]string{}, map[string]interface{}{"frames_sent_unread": len(bodies), "rule": "20 s after the stop was requested the receiver's processor is still parked in a channel send; its context is cancelled and nobody reads the channel"})
+			} else {
+				res.add("receiver_stop_slow_but_not_stuck(not judged)", 1)
+			}
+		}
 	case "concurrent-codec":
 		// every connection of a node has its own sender and reader goroutine: messages of different types are encoded and
 		// decoded at the same time. 4-8 goroutines each round-trip their own messages (all six types in play) and compare.
